@@ -1463,6 +1463,165 @@ fn ref_result(case: &RefCase, tier: &str) -> CaseResult {
     }
 }
 
+/// Two entry stores in one directory pack: every entry of store A holds a property bound to the
+/// position of an entry of store B. Final position = rank of the target's key when B is sorted,
+/// insertion rank otherwise.
+#[derive(Clone, Debug)]
+struct CrossCase {
+    /// entries in B
+    n: usize,
+    b_sorted: bool,
+    /// A is added to the pack before B
+    a_first: bool,
+    /// target (insertion number in B) of A's entry k
+    targets: Vec<usize>,
+    /// B's entries are inserted with decreasing keys (the sort reverses them)
+    b_reversed: bool,
+}
+
+impl CrossCase {
+    fn json(&self) -> J {
+        json!({"engine":"schemamc","sub":"c15","cross_store":{"n":self.n,"b_sorted":self.b_sorted,"a_first":self.a_first,"b_reversed":self.b_reversed,
+            "targets": if self.targets.len() <= 8 { json!(self.targets) } else { json!({"count": self.targets.len(), "head": &self.targets[..8]}) }}})
+    }
+}
+
+fn cross_store_result(c: &CrossCase) -> CaseResult {
+    use jbk::creator::schema;
+    use jbk::reader::{EntryTrait, Range};
+    let cj = c.json();
+    let done = |outcome: &str, v: Option<(String, String)>| CaseResult {
+        id: format!("cross:{cj}"),
+        nontrivial: true,
+        outcome: outcome.into(),
+        violation: v.map(|(k, w)| (k, w, cj.clone())),
+        sample: json!({"tier": "cross-store", "case": cj}),
+    };
+    let n = c.n;
+    let key_of = |i: usize| -> u64 { if c.b_reversed { (n - 1 - i) as u64 * 3 + 1 } else { i as u64 * 3 + 1 } };
+    // final position of B's entry i
+    let pos_b = |i: usize| -> u64 { if c.b_sorted && c.b_reversed { (n - 1 - i) as u64 } else { i as u64 } };
+    let built = jbkmc::catch(|| -> Result<Vec<u8>, String> {
+        let mut creator = jbk::creator::DirectoryPackCreator::new(jbk::PackId::from(0), jbk::VendorId::from([1, 2, 3, 4]), Default::default());
+        let schema_b = schema::Schema::<&'static str, &'static str>::new(schema::CommonProperties::new(vec![schema::Property::new_uint("key")]), vec![], if c.b_sorted { Some(vec!["key"]) } else { None });
+        let mut store_b = Box::new(jbk::creator::EntryStore::new(schema_b, None));
+        let mut bounds = vec![];
+        for i in 0..n {
+            let e = jbk::creator::BasicEntry::new_from_schema(&store_b.schema, None, std::collections::HashMap::from([("key", jbk::Value::Unsigned(key_of(i)))]));
+            bounds.push(store_b.add_entry(e));
+        }
+        let schema_a = schema::Schema::<&'static str, &'static str>::new(
+            schema::CommonProperties::new(vec![schema::Property::new_uint("id"), schema::Property::new_uint("ref")]),
+            vec![],
+            None,
+        );
+        let mut store_a = Box::new(jbk::creator::EntryStore::new(schema_a, None));
+        for (k, t) in c.targets.iter().enumerate() {
+            let e = jbk::creator::BasicEntry::new_from_schema(
+                &store_a.schema,
+                None,
+                std::collections::HashMap::from([("id", jbk::Value::Unsigned(1000 + k as u64)), ("ref", jbk::Value::UnsignedWord(bounds[*t].clone().into()))]),
+            );
+            store_a.add_entry(e);
+        }
+        let (ia, ib) = if c.a_first {
+            let ia = creator.add_entry_store(store_a);
+            let ib = creator.add_entry_store(store_b);
+            (ia, ib)
+        } else {
+            let ib = creator.add_entry_store(store_b);
+            let ia = creator.add_entry_store(store_a);
+            (ia, ib)
+        };
+        creator.create_index("a", Default::default(), 0.into(), ia, jbk::EntryCount::from(c.targets.len() as u32), jbk::EntryIdx::from(0).into());
+        creator.create_index("b", Default::default(), 0.into(), ib, jbk::EntryCount::from(n as u32), jbk::EntryIdx::from(0).into());
+        let mut out = std::io::Cursor::new(Vec::new());
+        creator.finalize().map_err(|e| format!("finalize: {e}"))?.write(&mut out).map_err(|e| format!("write: {e}"))?;
+        Ok(out.into_inner())
+    });
+    let bytes = match built {
+        Ok(Ok(b)) => b,
+        Ok(Err(e)) => return done("violation", Some(("C15 creation failed (two stores)".into(), e))),
+        Err(p) => return done("violation", Some((format!("C15 creation failed (two stores) {}", jbkmc::panic_site(&p)), p))),
+    };
+    let read = jbkmc::catch(|| -> Result<(), (String, String)> {
+        let od = open(bytes).map_err(|e| ("C15 two stores: directory pack does not open".to_string(), e))?;
+        let ia = od.index("a").map_err(|e| ("C15 two stores: index a".to_string(), e))?.ok_or(("C15 two stores: index a missing".to_string(), String::new()))?;
+        let ib = od.index("b").map_err(|e| ("C15 two stores: index b".to_string(), e))?.ok_or(("C15 two stores: index b missing".to_string(), String::new()))?;
+        // B as stored: key per position
+        let mut keys_at = vec![];
+        for p in 0..n as u32 {
+            let e = ib.entry(p).map_err(|e| ("C15 two stores: unreadable entry of B".to_string(), e))?.ok_or(("C15 two stores: entry of B missing".to_string(), format!("{p}")))?;
+            match e.vals.get("key") {
+                Some(jbkmc::dirmodel::RVal::U(k)) => keys_at.push(*k),
+                other => return Err(("C15 two stores: key of B unreadable".to_string(), format!("{other:?}"))),
+            }
+        }
+        for (i, _) in keys_at.iter().enumerate() {
+            let want_key = (0..n).find(|&j| pos_b(j) == i as u64).map(key_of).unwrap();
+            if keys_at[i] != want_key {
+                return Err(("C15 two stores: store B is not in its final order".to_string(), format!("position {i} holds key {}, expected {want_key}", keys_at[i])));
+            }
+        }
+        for (k, t) in c.targets.iter().enumerate() {
+            let e = ia.entry(k as u32).map_err(|e| ("C15 two stores: unreadable entry of A".to_string(), e))?.ok_or(("C15 two stores: entry of A missing".to_string(), format!("{k}")))?;
+            match e.vals.get("ref") {
+                Some(jbkmc::dirmodel::RVal::U(v)) if *v == pos_b(*t) => {}
+                other => {
+                    return Err((
+                        "C15 reference into another store does not resolve to the final position".to_string(),
+                        format!("entry {k} of A references entry #{t} of B (final position {}), stored {other:?}", pos_b(*t)),
+                    ))
+                }
+            }
+        }
+        Ok(())
+    });
+    match read {
+        Ok(Ok(())) => done("ok(two stores)", None),
+        Ok(Err((k, w))) => done("violation", Some((k, w))),
+        Err(p) => done("violation", Some((format!("C15 two stores: reader panics {}", jbkmc::panic_site(&p)), p))),
+    }
+}
+
+fn cross_cases(thorough: bool) -> Vec<CrossCase> {
+    let mut v = vec![];
+    // small: every target function for n <= 3, 2 entries in A
+    for n in 1..=3usize {
+        for t in sequences(n, 2) {
+            for b_sorted in [false, true] {
+                for a_first in [false, true] {
+                    for b_reversed in [false, true] {
+                        v.push(CrossCase { n, b_sorted, a_first, targets: t.clone(), b_reversed });
+                    }
+                }
+            }
+        }
+    }
+    // positions crossing the 1-byte boundary, constant and varying columns
+    let sizes: &[usize] = if thorough { &[256, 257, 300, 70_000] } else { &[257, 300] };
+    for &n in sizes {
+        let shapes: Vec<Vec<usize>> = vec![
+            vec![0, 0, 0],             // constant column: everyone references the first inserted
+            vec![n - 1, n - 1],        // constant: the last inserted
+            vec![0, 1, n - 1, n / 2],  // varying
+            vec![0, 1, 2],             // first inserted only: small before the sort, large after a reversal
+            vec![n - 2, n - 1],        // last inserted only
+            (0..n.min(400)).collect(), // one reference per entry
+        ];
+        for targets in shapes {
+            for b_sorted in [false, true] {
+                for a_first in [false, true] {
+                    for b_reversed in [false, true] {
+                        v.push(CrossCase { n, b_sorted, a_first, targets: targets.clone(), b_reversed });
+                    }
+                }
+            }
+        }
+    }
+    v
+}
+
 fn c15(args: &Args) -> ! {
     let mut rep = Report::new(
         "schemamc",
@@ -1475,6 +1634,24 @@ fn c15(args: &Args) -> ! {
         if case.get("structured").is_some() {
             eprintln!("structured case: re-run the tier");
             std::process::exit(2);
+        }
+        if let Some(cs) = case.get("cross_store") {
+            let targets: Vec<usize> = match cs["targets"].as_array() {
+                Some(a) => a.iter().map(|x| x.as_u64().unwrap() as usize).collect(),
+                None => {
+                    eprintln!("structured case: re-run the tier");
+                    std::process::exit(2);
+                }
+            };
+            let c = CrossCase { n: cs["n"].as_u64().unwrap() as usize, b_sorted: cs["b_sorted"].as_bool().unwrap(), a_first: cs["a_first"].as_bool().unwrap(), targets, b_reversed: cs["b_reversed"].as_bool().unwrap() };
+            let r = cross_store_result(&c);
+            println!("replay outcome: {}", r.outcome);
+            rep.case(Some(&r.id), &r.outcome);
+            if let Some((k, w, cj)) = r.violation {
+                println!("  {k}: {w}");
+                rep.violation(&k, &w, cj);
+            }
+            rep.finish(args);
         }
         let r = if case.get("refsort").is_some() { refsort_result(&RefCase::from_json(case)) } else { ref_result(&RefCase::from_json(case), "replay") };
         println!("replay outcome: {}", r.outcome);
@@ -1574,6 +1751,9 @@ fn c15(args: &Args) -> ! {
         }
     }
     run_cases(&mut rep, &rdescs, |d| refsort_result(d));
+    // references from one store into another store of the same pack
+    let cc = cross_cases(t);
+    run_cases(&mut rep, &cc, |d| cross_store_result(d));
     rep.finish(args)
 }
 
